@@ -160,6 +160,7 @@ PROP_ENTRIES = {
     "C05": ["gridDisk", "gridDiskDistances", "gridDiskDistancesSafe", "gridDiskUnsafe", "gridDiskDistancesUnsafe", "gridDisksUnsafe", "gridRingUnsafe",
             "areNeighborCells", "maxGridDiskSize"],
     "C06": ["compactCells", "uncompactCells", "uncompactCellsSize"],
+    "C07": ["polygonToCells", "polygonToCellsExperimental", "maxPolygonToCellsSize", "maxPolygonToCellsSizeExperimental"],
     "C08": ["cellToBoundary", "cellAreaRads2", "cellAreaKm2", "cellAreaM2"],
     "C09": ["gridDistance", "cellToLocalIj", "localIjToCell"],
     "C10": ["cellsToDirectedEdge", "isValidDirectedEdge", "getDirectedEdgeOrigin", "getDirectedEdgeDestination", "directedEdgeToCells", "originToDirectedEdges",
@@ -430,6 +431,16 @@ def part_walk(ctx):
     ctx.floor("R-WALK", "in-place ring walks", n + len([b for b in ctx.brokens if b["rule"] == "R-WALK"]), 2)
 
 
+def part_gate(ctx):
+    from . import rules_gate
+    n = rules_gate.check(ctx, module(CFG[0], "ssa"), CFG[0])
+    ctx.explanation += ("R-GATE: a cell reaches the output only through the containment test of its own geometry: polygonToCells stores a cell only after "
+                        "pointInsidePolygon succeeded on the centre of that very cell (polygon = the parameter, boxes filled from it, slot not already holding it); "
+                        "iterStepPolygonCompact, explored with the containment mode fixed, emits a cell in mode CENTER only through the centre test of that cell or the "
+                        "inside test of the box covering its descendants, in mode FULL only through the boundary-inside test or the latter. ")
+    ctx.floor("R-GATE", "emitting sites / modes", n, 3)
+
+
 def part_family(ctx):
     from . import rules_compact
     n = rules_compact.check(ctx, module(CFG[0], "ssa"), CFG[0])
@@ -473,12 +484,13 @@ PARTS = {
     "C04": [part_guards("C04"), part_errflow("C04"), part_bitprov("indexops", "C04"), part_drain(["cellToChildren"]), part_cform("C04"), part_tables(["T7"], {"T7": ["isBaseCellPentagonArr"]}, pid="C04"), part_wit("C04")],
     "C05": [part_guards("C05"), part_errflow("C05"), part_bitprov("indexops", "C05"), part_tables(["T1", "T2", "T3", "T10", "T11", "T7", "T19"], {"T7": ["baseCellNeighbors", "baseCellNeighbor60CCWRots"]}, pid="C05"), part_cform("C05"), part_walk, part_hashmod("C05", 1), part_wit("C05")],
     "C06": [part_guards("C06"), part_errflow("C06"), part_bitprov("indexops", "C06"), part_drain(["uncompactCells"]), part_bw("C06"), part_cform("C06"), part_hashmod("C06", 2), part_family],
+    "C07": [part_gate, part_sib, part_errflow("C07")],
     "C08": [part_fold("C08"), part_tables(["T5", "T9", "T13"], pid="C08"), part_cform("C08"), part_slice, part_wit("C08")],
     "C09": [part_guards("C09"), part_errflow("C09"), part_bitprov("indexops", "C09"), part_tables(["T1", "T2", "T3", "T10", "T14", "T20", "T21", "T22"], pid="C09"), part_ovf, part_unitvec, part_wit("C09")],
     "C10": [part_guards("C10"), part_errflow("C10"), part_bitprov("indexops", "C10"), part_tables(["T8", "T12"], pid="C10"), part_cform("C10"), part_fold("C10"), part_slice, part_wit("C10")],
     "C11": [part_guards("C11"), part_errflow("C11"), part_tables(["T8", "T12", "T7"], {"T7": ["pentagonDirectionFaces"]}, pid="C11"), part_slice, part_wit("C11")],
     "C12": [part_guards("C12"), part_bitprov("validity"), part_bitprov("indexops", "C12"), part_ret, part_errdisc, part_errflow("C12"), part_ovf, part_idx, part_unitvec, part_bw(None), part_hashmod(None, 5), part_cform("C12"), part_wit("C12")],
-    "C13": [part_guards("C13"), part_errflow("C13"), part_bitprov("indexops", "C13"), part_cform("C13"), part_wit("C13")], "C14": [part_guards("C14"), part_errflow("C14"), part_bw("C14"), part_cform("C14"), part_tables(["T14", "T20", "T21", "T22"], pid="C14"), part_unitvec], "C15": [part_guards("C15"), part_errflow("C15"), part_bw("C15"), part_sib, part_tables(["T17", "T18"], pid="C15"), part_wit("C15")],
+    "C13": [part_guards("C13"), part_errflow("C13"), part_bitprov("indexops", "C13"), part_cform("C13"), part_wit("C13")], "C14": [part_guards("C14"), part_errflow("C14"), part_bw("C14"), part_cform("C14"), part_tables(["T14", "T20", "T21", "T22"], pid="C14"), part_unitvec], "C15": [part_guards("C15"), part_errflow("C15"), part_bw("C15"), part_sib, part_gate, part_tables(["T17", "T18"], pid="C15"), part_wit("C15")],
     "C19": [part_guards("C19"), part_tables(["T5", "T9"], pid="C19"), part_bw("C19"), part_cform("C19"), part_wit("C19")],
     "C20": [part_guards("C20"), part_fmt, part_wit("C20")],
 }
